@@ -96,6 +96,10 @@ def assemble(tab, items):
     word = v >= (3, 6)
     n = len(items)
     pre = [min(3 if word else 1, int(it.get("pre") or 0)) for it in items]
+    # "xpre": a NON-zero EXTENDED_ARG in front of an operand-less instruction (word code).  Interpreters up to 3.9 let
+    # it leak into the next operand, 3.10+ drop it (bpo-45757): whatever the version's own dis does is the reference.
+    xpre = [int(it.get("xpre") or 0) & 0xFF if (v >= (3, 10) and not tab.takes(tab.opmap[it["op"]])) else 0 for it in items]
+    pre = [1 if xpre[i] else p for i, p in enumerate(pre)]
     args = [it.get("arg") for it in items]
     # "rep": a run of that many copies of an operand-less instruction (padding that pushes jump operands past 2^16)
     reps = [max(1, min(140000, int(it.get("rep") or 1))) if not tab.takes(tab.opmap[it["op"]]) else 1 for it in items]
@@ -146,6 +150,8 @@ def assemble(tab, items):
         a = args[i] if takes else None
         if word:
             aa = a or 0
+            if xpre[i]:
+                aa = xpre[i] << 8
             for k in range(pre[i], 0, -1):
                 out += bytes([tab.ext, (aa >> (8 * k)) & 0xFF])
             out += bytes([code, aa & 0xFF]) * reps[i]
@@ -234,6 +240,10 @@ def asm_cases(version, tab, max_items=14, padding=True):
         name = draw(st.sampled_from(by_kind[k]))
         it = {"op": name, "arg": None, "pre": 0, "to": None}
         if k == "none":
+            # (only from 3.10: the dis of 3.6-3.9 lets such an EXTENDED_ARG leak into the next operand, which that
+            # version's own interpreter never did - CPython fixed dis in 3.10, bpo-45757; no compiler emits the sequence)
+            if v >= (3, 10) and draw(st.sampled_from([False] * 7 + [True])):
+                it["xpre"] = 1
             return it
         it["pre"] = draw(st.sampled_from([0, 0, 0, 1, 2, maxpre])) if maxpre > 1 else draw(st.sampled_from([0, 0, 1]))
         it["pre"] = min(it["pre"], maxpre)
